@@ -212,6 +212,33 @@ def substitute(t, mapping):
     return t
 
 
+def welford_roles(prog, W):
+    """Which fields of the Welford tracker play the three parts, found from what the code does with them and not from
+    their names: {"N": update counter, "tracked_value": running mean, "sum_squares": second-moment accumulator}.
+    Falls back to the conventional names for a part that cannot be told."""
+    roles = {"N": "N", "tracked_value": "tracked_value", "sum_squares": "sum_squares"}
+    try:
+        upd = prog.summarise(W, "update")
+        _, fn = prog.find_method(W, "update")
+        v = ("param", [a.arg for a in fn.args.args][1])
+        mean = None
+        for g in ("get", "__call__"):
+            if prog.find_method(W, g)[1] is not None:
+                r = prog.summarise(W, g).ret
+                if r[0] == "field0":
+                    mean = r[1]
+                    break
+        counters = [f for f, t in upd.fields.items() if t == ("op", "+", ("field0", f), ("const", 1))]
+        moved = [f for f, t in upd.fields.items() if v in ir.subterms(t)]
+        if mean in moved and len(counters) == 1 and counters[0] not in moved:
+            rest = [f for f in moved if f != mean]
+            if len(rest) == 1:
+                roles = {"N": counters[0], "tracked_value": mean, "sum_squares": rest[0]}
+    except (ir.Unsupported, IndexError):
+        pass
+    return roles
+
+
 def fold_minmax(t):
     """Fold max/min/abs over constant arguments (used after substituting a counter value)."""
     if not isinstance(t, tuple) or not t:
